@@ -60,6 +60,42 @@ func (P *Program) pkgByName(name string) *types.Package {
 	return best
 }
 
+// specType resolves a type name of the contract language: builtin sort names,
+// []T, *T and (qualified) Go type names.
+func (P *Program) specType(t string) (string, types.Type) {
+	switch t {
+	case "int", "bool", "string", "bytes", "real", "ref", "iface", "slice", "error", "int64", "uint64", "int32", "uint32", "map", "ptr", "float64", "strset", "intset", "intarr", "strarr":
+		return SpecSort(t), nil
+	case "[]byte":
+		return "Bytes", types.NewSlice(types.Typ[types.Byte])
+	}
+	if strings.HasPrefix(t, "(") {
+		return t, nil
+	}
+	if strings.HasPrefix(t, "[]") {
+		if g := SpecGoType(t); g != nil {
+			return "Slice", g
+		}
+		_, et := P.specType(t[2:])
+		if et == nil {
+			return "Slice", nil
+		}
+		g := types.NewSlice(et)
+		return SortOf(g), g
+	}
+	if strings.HasPrefix(t, "*") {
+		_, et := P.specType(t[1:])
+		if et == nil {
+			return "Int", nil
+		}
+		return "Int", types.NewPointer(et)
+	}
+	if n := P.namedType(t); n != nil {
+		return SortOf(n), n
+	}
+	return SpecSort(t), nil
+}
+
 // findPure finds a pure function contract by (suffix of) key.
 func (P *Program) findPure(name string, pkg *types.Package) (*FuncContract, string) {
 	if fc, ok := P.Specs.Funcs[name]; ok && fc.Pure {
